@@ -93,6 +93,27 @@ def gen_sizes(rng, L, P, kind, cap):
             if left <= 0:
                 break
             take(1)
+    if kind == "edge":
+        # call boundaries that make the feature queue end exactly at / next to the end of feat_buf (128, 256 entries):
+        # a call ends when exactly T cepstral frames have been delivered, T - win in {alloc - 1, alloc, alloc + 1}
+        win = P["win"]
+        targets = sorted(set(a + win + d for a in (P["nfeat"], 2 * P["nfeat"]) for d in (-1, 0, 1)))
+        pos = 0
+        for T in targets:
+            end = fs + (T - 1) * sh + rng.below(sh)           # T frames delivered, the (T+1)-th not yet
+            if end >= L:
+                break
+            k = rng.range(1, 100)                              # the call before brings the count to T - k
+            before = fs + (T - k - 1) * sh + rng.below(sh)
+            if before > pos:
+                while pos < before:
+                    n = min(before - pos, rng.range(2000, 12000), cap)
+                    take(n)
+                    pos += n
+            while pos < end:
+                n = min(end - pos, cap)
+                take(n)
+                pos += n
     if kind == "huge":
         # chunks far larger than the 128-frame cepstrum ring (and than the feature buffer)
         while left > 0:
@@ -122,7 +143,7 @@ def gen_pattern(rng, L, P, cap, kind):
     allbuf = kind == "buffered"
     pq = {"queries": 0.35, "mixed": 0.12, "single": 0.004}.get(kind, 0.0)
     pf = 0.0 if kind == "one" else rng.choice([0.0, 0.5, 1.0])
-    pns = {"buffered": 1.0, "mixed": 0.5, "queries": 0.3, "huge": 0.3, "single": 0.2, "tinyfirst": 0.2}.get(kind, 0.0)
+    pns = {"buffered": 1.0, "mixed": 0.5, "queries": 0.3, "huge": 0.3, "single": 0.2, "tinyfirst": 0.2, "edge": 0.3}.get(kind, 0.0)
     for n in sizes:
         ns = 1 if (allbuf or rng.chance(pns)) else 0
         ops.append(f"p {'f' if rng.chance(pf) else 'i'} {n} {ns}")
@@ -168,7 +189,7 @@ def gen_clips(rng, N, P, tier):
     return clips
 
 
-KINDS = ["tinyfirst", "mixed", "queries", "buffered", "huge", "single", "random", "bufquery"]
+KINDS = ["tinyfirst", "mixed", "queries", "buffered", "huge", "single", "random", "bufquery", "edge"]
 
 # --------------------------------------------------------------------------------------------------
 # running the harness and the model
@@ -212,9 +233,16 @@ def run_harness(binp, g, runs, timeout=1800):
 
 
 def record_of(res_line):
-    """the part of the result record that must be identical: everything but buffer positions"""
+    """the result record: everything but buffer positions"""
     body = res_line.split(" | ")[0]
     return body
+
+
+def public_of(rec):
+    """what the property speaks about: hypothesis, path score, decoder_n_frames, segmentation, alignment.
+    The rest of the record (hash of the feature vectors, reads of the alignment pass, cmn->nframe) is internal:
+    a difference there alone breaks `features_canonical` on the implementation but is not a visible result."""
+    return " ".join(t for t in rec.split() if t.split("=")[0] in ("res", "hyp", "score", "nfr", "segs", "align"))
 
 
 def parse_sc(tok):
@@ -374,21 +402,35 @@ def mk_run(off, ln, cmn, ops):
     return {"off": off, "len": ln, "cmn": cmn, "ops": list(ops), "fed": min(fed, ln)}
 
 
+REF_LAST = False      # set while a group is judged whose reference pattern is decoded after the variants
+
+
 def isolated(binp, g, off, ln, cmn, ops, cap):
-    """fresh process: warm-up utterance, reference pattern, variant.
+    """fresh process: warm-up utterance, reference pattern, variant (or variant, reference when REF_LAST).
     Returns (kind, info, runs, P) with kind None | "diff" (record differs) | "crash" (the library died in the variant)."""
     w = WARMUP[0].split()
     runs = [mk_run(int(w[1]), int(w[2]), w[3], WARMUP[1:-2]), mk_run(off, ln, cmn, ref_ops(ln, cap)), mk_run(off, ln, cmn, ops)]
+    if REF_LAST:
+        runs = [runs[0], runs[2], runs[1]]
     rc, err, P, done = run_harness(binp, g, runs, timeout=600)
-    info = {"exit_code": rc, "stderr_tail": err[-1500:] if rc != 0 else ""}
+    if REF_LAST:
+        runs = [runs[0], runs[2], runs[1]]
+    info = {"exit_code": rc, "stderr_tail": err[-1500:] if rc != 0 else "", "stderr_head": err[:1200] if rc != 0 else ""}
     if done < 3:
+        if REF_LAST:
+            vdone = len(runs[2].get("out", [])) == 1 + len(runs[2]["ops"]) + 2
+            info["crashed_in"] = "reference" if vdone else "variant"
+            info["variant_calls_answered_before_the_crash"] = max(0, len(runs[2].get("out", [])) - 1)
+            return ("crash-ref" if vdone else "crash"), info, runs, P
         info["crashed_in"] = "warm-up" if done < 1 else "reference" if done < 2 else "variant"
         nans = len(runs[2].get("out", []))
         info["variant_calls_answered_before_the_crash"] = max(0, nans - 1)
         return ("crash" if done == 2 else "crash-ref"), info, runs, P
     info["reference_record"] = record_of(runs[1]["out"][-1])
     info["variant_record"] = record_of(runs[2]["out"][-1])
-    return ("diff" if info["reference_record"] != info["variant_record"] else None), info, runs, P
+    if public_of(info["reference_record"]) != public_of(info["variant_record"]):
+        return "diff", info, runs, P
+    return ("diff-internal" if info["reference_record"] != info["variant_record"] else None), info, runs, P
 
 
 def shrink(binp, g, off, ln, cmn, ops, cap, kind, budget=40):
@@ -406,7 +448,7 @@ def shrink(binp, g, off, ln, cmn, ops, cap, kind, budget=40):
             n = info["variant_calls_answered_before_the_crash"]
             if n + 1 < len(cur):
                 cur = cur[:n + 1]            # the calls after the fatal one are irrelevant
-    if kind == "diff":
+    if kind.startswith("diff"):
         ps = [o for o in cur if o.startswith("p ")]
         for j in (1, 2, 3):
             if len(ps) > j + 1 and tests < budget:
@@ -419,7 +461,7 @@ def shrink(binp, g, off, ln, cmn, ops, cap, kind, budget=40):
     changed = True
     while changed and tests < budget:
         changed = False
-        if kind == "diff":
+        if kind.startswith("diff"):
             noq = [o for o in cur if not o.startswith("q ")]
             if len(noq) < len(cur) and bad(noq):
                 cur, changed = noq, True
@@ -477,7 +519,7 @@ def crash_key(err):
     return None
 
 
-MAX_REPLAYS = 3
+MAX_REPLAYS = 5
 
 
 def report_violation(c, binp, g, off, ln, cmn, ops, cap, why):
@@ -497,21 +539,26 @@ def report_violation(c, binp, g, off, ln, cmn, ops, cap, why):
         else:
             small = ops
     key = None
-    if kind == "diff" and (d25_class(runs[1]) or d25_class(runs[2])):
+    if kind.startswith("diff") and (d25_class(runs[1]) or d25_class(runs[2])):
         key = D25_KEY
-    elif kind != "diff":
-        key = crash_key(info.get("stderr_tail", ""))
-    replay = {"kind": "decoder call pattern", "failure": "result record differs from the reference pattern" if kind == "diff"
+    elif not kind.startswith("diff"):
+        key = crash_key(info.get("stderr_head", "") + info.get("stderr_tail", ""))
+    visible = kind != "diff-internal"
+    replay = {"kind": "decoder call pattern",
+              "failure": "result (hypothesis / scores / segmentation / alignment / frame count) differs from the reference pattern" if kind == "diff"
+              else "the feature vectors handed to the search differ from the reference pattern (features_canonical broken on the "
+                   "implementation); the decoded result itself is the same on this input" if kind == "diff-internal"
               else "the library aborted / reported a sanitizer error under this call pattern (no result)",
               "group": g["name"], "hmm": g["hmm"], "cfg": g["cfg"], "audio": g["audio"],
               "clip_offset_samples": off, "clip_length_samples": ln, "cmn": cmn,
               "reference_ops": ref_ops(ln, cap), "variant_ops": small, "why": why,
-              "implementation_violates_property": True, "finding_class": key,
+              "reference_decoded_after_the_variant": REF_LAST,
+              "implementation_violates_property": visible, "finding_class": key,
               "how_to_rerun": "python3 tools/check.py C07 --replay <this file>   (a warm-up utterance, the reference "
                               "pattern and the variant are decoded by harness/h_c07 in one fresh process; ops: "
                               "'p <i|f> <samples> <no_search>', 'q hyp|seg|align')"}
     replay.update(info)
-    c.violation(replay, True, finding_key=key)
+    c.violation(replay, visible, finding_key=key)
     return kind, key
 
 
@@ -523,7 +570,8 @@ def new_stats():
     return {"steps": 0, "branches": Counter(), "kinds": Counter(), "chunks": Counter(), "entry": Counter(),
             "nosearch": Counter(), "queries": Counter(), "clip_frames": Counter(), "first_chunk_lt_window": 0,
             "one_sample_chunks": 0, "chunks_gt_ring": 0, "utterances": 0, "groups": Counter(),
-            "reference_with_hypothesis": 0, "reference_without_hypothesis": 0, "patterns_differing_from_reference": 0}
+            "reference_with_hypothesis": 0, "reference_without_hypothesis": 0, "patterns_differing_from_reference": 0,
+            "patterns_differing_in_the_visible_result": 0}
 
 
 def bucket(n):
@@ -558,17 +606,25 @@ def probe(binp):
     return bool(m and m.group(1) == "1")
 
 
-def check_group(c, binp, g, cases, cap, stats, label, depth=0):
-    """cases: list of (off, len, cmn, [(kind, ops), ...], cap).  Returns (ok, P)."""
+def check_group(c, binp, g, cases, cap, stats, label, depth=0, ref_last=False):
+    """cases: list of (off, len, cmn, [(kind, ops), ...], cap).  Returns (ok, P).
+    ref_last: decode the variants before the reference pattern (on a fresh decoder the variants then meet the
+    initial buffer sizes, which the single-call reference would have grown)."""
+    global REF_LAST
+    REF_LAST = ref_last
     w = WARMUP[0].split()
     runs = [mk_run(int(w[1]), int(w[2]), w[3], WARMUP[1:-2])]
     index = []               # (case idx, variant idx or -1 for the reference) per run after the warm-up
     for ci, (off, ln, cmn, variants, cap_c) in enumerate(cases):
-        runs.append(mk_run(off, ln, cmn, ref_ops(ln, cap_c)))
-        index.append((ci, -1))
+        if not ref_last:
+            runs.append(mk_run(off, ln, cmn, ref_ops(ln, cap_c)))
+            index.append((ci, -1))
         for vi, (kind, ops) in enumerate(variants):
             runs.append(mk_run(off, ln, cmn, ops))
             index.append((ci, vi))
+        if ref_last:
+            runs.append(mk_run(off, ln, cmn, ref_ops(ln, cap_c)))
+            index.append((ci, -1))
     rc, err, P, done = run_harness(binp, g, runs)
     ok = True
     if done < len(runs):
@@ -601,12 +657,15 @@ def check_group(c, binp, g, cases, cap, stats, label, depth=0):
                         continue
                 rest.append((o2, l2, m2, v2, cp2))
             if rest:
-                ok2, P = check_group(c, binp, g, rest, cap, stats, label, depth + 1)
+                ok2, P = check_group(c, binp, g, rest, cap, stats, label, depth + 1, ref_last)
                 return (ok2 and known), P
         return known, P
     # ---- oracle: every record identical to the reference record of its clip
     refs = {}
     bad_cases = []
+    for r, (ci, vi) in zip(runs[1:], index):
+        if vi < 0:
+            refs[ci] = (record_of(r["out"][-1]), r)
     for r, (ci, vi) in zip(runs[1:], index):
         rec = record_of(r["out"][-1])
         stats["utterances"] += 1
@@ -618,10 +677,12 @@ def check_group(c, binp, g, cases, cap, stats, label, depth=0):
             if int(kv(rec).get("cmnframes", "0")) > P["cmnhwm"]:
                 c.oblige("generator keeps utterances shorter than the CMN update window", False, rec[:200])
         elif rec != refs[ci][0]:
-            bad_cases.append((ci, vi))
+            bad_cases.append((public_of(rec) == public_of(refs[ci][0]), ci, vi))
     stats["patterns_differing_from_reference"] += len(bad_cases)
+    stats["patterns_differing_in_the_visible_result"] += sum(1 for b in bad_cases if not b[0])
+    bad_cases.sort(key=lambda b: b[0])          # visible differences first
     seen_keys = set()
-    for ci, vi in bad_cases:
+    for _, ci, vi in bad_cases:
         if len(seen_keys) >= 2 or len(c.violations) >= MAX_REPLAYS:
             ok = False
             break
@@ -690,6 +751,10 @@ def check(c):
                       "channel-normalisation update window'); the generator enforces it and the harness reports cmn->nframe",
                       "full_utt = 0 throughout (full_utt = 1 is the batch-CMN regime, not compared against streaming)",
                       "cmn != none; acmod_set_grow(FALSE) is not reachable through the decoder API",
+                      "n_mfc_alloc = 128: no full_utt = 1 utterance has enlarged the cepstrum ring of this decoder before (c08's D53 (cmn_live shift per frame) is the "
+                      "defect that shows up when one has); the harness reports nmfc and the model fixes it to the generated constant",
+                      "front-end contract used as hypothesis of the theorems and checked on every run: fe_process never yields more frames than "
+                      "the limit it was given; fe_end yields the pending frame iff any sample was fed in this utterance",
                       "decoder_alignment is only requested when the current segmentation contains a dictionary word (D27 is C09/C14's)"]
     if not c.lean_obligations():
         return
@@ -728,17 +793,22 @@ def check(c):
                 allok = False
                 break
             N = P["naudio"]
-            cases = []
+            cases, fresh = [], []
             for (off, ln) in gen_clips(c.rng, N, P, c.tier):
                 cmn = c.rng.choice(CMNS)
                 variants = []
                 kinds = list(KINDS)
                 c.rng.shuffle(kinds)
                 n_here = npat if ln > P["fsize"] else max(3, npat // 2)
+                long_clip = ln >= P["fsize"] + (P["nfeat"] + P["win"] + 1) * P["fshift"]
+                if long_clip:
+                    kinds = ["edge", "edge"] + [k for k in kinds if k != "edge"]
                 for i in range(n_here):
                     kind = kinds[i % len(kinds)]
                     if ln < 3000 and kind == "huge":
                         kind = "single"
+                    if kind == "edge" and not long_clip:
+                        kind = "random"
                     ops = gen_pattern(c.rng, ln, P, cap, kind)
                     variants.append((kind, ops))
                     note_pattern(stats, P, kind, ops, ln)
@@ -746,9 +816,19 @@ def check(c):
                     nvar += 1
                     if len(c.samples) < 6 and i == 0:
                         c.samples.append({"group": g["name"], "clip": [off, ln], "cmn": cmn, "kind": kind, "ops": ops[:12] + (["..."] if len(ops) > 12 else [])})
-                cases.append((off, ln, cmn, variants, cap))
+                if long_clip:
+                    fresh.append((off, ln, cmn, variants, cap))
+                else:
+                    cases.append((off, ln, cmn, variants, cap))
             ok, P = check_group(c, binp, g, cases, cap, stats, f"generated {g['name']} round {rnd}")
             allok = allok and ok
+            for fi, case in enumerate(fresh):
+                if not allok:
+                    break
+                # a fresh decoder per long clip: feat_buf still has its initial size when the first variants run
+                ok, P = check_group(c, binp, g, [case], cap, stats, f"generated {g['name']} round {rnd} long clip {fi}",
+                                    ref_last=True)
+                allok = allok and ok
     c.oblige("oracle: every generated calling pattern gives the result record of the reference pattern (real decoder, ASan/UBSan)",
              allok)
     c.oblige("correspondence: counters after every call, search steps and window/feature identity agree with the model", allok)
@@ -771,6 +851,7 @@ def check(c):
                   "reference_records_with_a_hypothesis": stats["reference_with_hypothesis"],
                   "reference_records_without_a_hypothesis": stats["reference_without_hypothesis"],
                   "patterns_differing_from_reference": stats["patterns_differing_from_reference"],
+                  "patterns_differing_in_the_visible_result": stats["patterns_differing_in_the_visible_result"],
                   "d9_stale_assert_present_chunks_capped_at_32767": d9})
 
 
@@ -782,6 +863,6 @@ def replay(c, path):
     cap = 32767 if probe(binp) else 10 ** 9
     stats = new_stats()
     cases = [(obj["clip_offset_samples"], obj["clip_length_samples"], obj["cmn"], [("replay", obj["variant_ops"])], cap)]
-    ok, P = check_group(c, binp, g, cases, cap, stats, "replay")
+    ok, P = check_group(c, binp, g, cases, cap, stats, "replay", ref_last=bool(obj.get("reference_decoded_after_the_variant")))
     c.oblige("replayed pattern gives the reference record and agrees with the model", ok)
     c.cov.update({"evaluations": 1, "distinct_nontrivial": 1})
